@@ -92,6 +92,10 @@ def cases(tier, seed):
             for rotset in ("identity", "generic"):
                 for order in (0, 1, 3):
                     out.append({"family": "random", "kind": kind, "N": N, "rot": rotset, "order": order, "seed": seed})
+    # call histories on ONE loader object: averages, split averages and the FSC methods built on them (which normalise the
+    # half-maps they get) must not depend on what was asked of the loader before; callers may edit what they were given
+    for kind in ("single", "batch(2,1)", "mock"):
+        out.append({"family": "history", "kind": kind, "depth": 2 if tier == "quick" else 3})
     return out
 
 
@@ -177,6 +181,8 @@ def run_case(case):
     fam = case["family"]
     if fam == "random":
         return _run_random(case)
+    if fam == "history":
+        return _run_history(case)
     kind, N, box = case["kind"], case["N"], tuple(case["box"])
     counts = _counts(kind, N)
     dtype = case.get("dtype", "float32")
@@ -276,6 +282,72 @@ def run_case(case):
                 if np.abs(comb - exp).max() > 1e-6:
                     viol.append((sig("split-recombination"), f"{name}: count-weighted mean of the halves is not the full average"))
     return {"nontrivial": N >= 2, "outcome": f"split|{kind}|n_set={n_set}|{'viol' if viol else 'ok'}", "viol": viol}
+
+
+def _run_history(case):
+    from scipy.spatial.transform import Rotation
+
+    from acryo import BatchLoader, MockLoader, Molecules, SubtomogramLoader
+    from vf import history
+
+    kind = case["kind"]
+    N = 5
+    box = (5, 4, 6)
+
+    def make():
+        rng = np.random.default_rng(41)
+        rots = Rotation.from_matrix(np.array([data.rot_matrix(n) for n in ("gen0", "cube0", "gen1", "cube9", "gen3")]))
+        mole = Molecules(rng.uniform(9, 13, size=(N, 3)), rots, features={"g2": np.arange(N) % 2})
+        if kind == "mock":
+            return MockLoader(rng.standard_normal((7, 7, 7)).astype(np.float32) + 2.0, Molecules(rng.uniform(-1, 1, size=(N, 3)), rots), order=1)
+        if kind.startswith("batch"):
+            ld = BatchLoader(order=1, output_shape=box)
+            ld.add_tomogram(rng.standard_normal((22, 22, 22)).astype(np.float32) + 2.0, mole.subset(slice(0, 3)), image_id=0)
+            ld.add_tomogram(rng.standard_normal((22, 22, 22)).astype(np.float32) + 2.0, mole.subset(slice(3, 5)), image_id=1)
+            return ld
+        return SubtomogramLoader(rng.standard_normal((22, 22, 22)).astype(np.float32) + 2.0, mole, order=1, output_shape=box)
+
+    def fsc_tuple(t):
+        return [t.fsc.to_numpy(), np.asarray(t.halfmaps[0]), np.asarray(t.halfmaps[1])]
+
+    def edit(ld, **kw):
+        r = ld.average_split(**kw)
+        snap = np.array(r, copy=True)
+        r -= r.mean()  # what a caller may do with an array it was given
+        r *= 3.0
+        return snap
+
+    ops = [
+        ("average", lambda ld: np.asarray(ld.average())),
+        ("average_split(seed=3,n_set=2)", lambda ld: np.array(ld.average_split(seed=3, n_set=2, squeeze=False), copy=True)),
+        ("average_split(seed=3)", lambda ld: np.array(ld.average_split(seed=3), copy=True)),
+        ("average_split(seed=4,n_set=2)", lambda ld: np.array(ld.average_split(seed=4, n_set=2, squeeze=False), copy=True)),
+        ("average_split(seed=3,n_set=2)+edit", lambda ld: edit(ld, seed=3, n_set=2, squeeze=False)),
+        ("average_split(seed=3)+edit", lambda ld: edit(ld, seed=3)),
+        ("fsc(seed=3,n_set=2)", lambda ld: ld.fsc(seed=3, n_set=2, dfreq=0.1).to_numpy()),
+        ("fsc_with_halfmaps(seed=3)", lambda ld: fsc_tuple(ld.fsc_with_halfmaps(seed=3, dfreq=0.1))),
+        ("fsc_with_halfmaps(seed=3,zero_norm=False)", lambda ld: fsc_tuple(ld.fsc_with_halfmaps(seed=3, dfreq=0.1, zero_norm=False))),
+        ("fsc_with_average(seed=3,n_set=2)", lambda ld: (lambda t: [t[0].to_numpy(), np.asarray(t[1])])(ld.fsc_with_average(seed=3, n_set=2, dfreq=0.1))),
+        ("asnumpy", lambda ld: np.asarray(ld.asnumpy())),
+    ]
+    res = history.explore(make, ops, case["depth"], atol=1e-5, rtol=1e-5)
+    viol, seen = [], set()
+    for n_ in res["raises_alone"]:
+        viol.append((f"{ID}|history|{kind.split('(')[0]}|raises-on-a-fresh-loader|{n_.split('(')[0]}", f"{n_} raised {res['raises_alone_msg'][n_]}"))
+    for hist, why in res["failures"]:
+        sg = f"{ID}|history|{kind.split('(')[0]}|{hist[-1].split('(')[0]}-after-{hist[-2].split('(')[0]}"
+        if sg not in seen:
+            seen.add(sg)
+            viol.append((sg, f"{kind} loader of {N} molecules: {hist[-1]} after {hist[:-1]} differs from the same call on a fresh loader: {why}"))
+    for hist, err in res["errors"]:
+        sg = f"{ID}|history|{kind.split('(')[0]}|raised"
+        if sg not in seen:
+            seen.add(sg)
+            viol.append((sg, f"{hist} raised {err}"))
+    if res["nondeterministic"]:
+        viol.append((f"{ID}|history|{kind.split('(')[0]}|not-reproducible", f"{res['nondeterministic']} differ between two fresh loaders"))
+    return {"nontrivial": True, "outcome": f"history|{kind}|{'viol' if viol else 'ok'}", "viol": viol,
+            "metrics": {"history_sequences": res["sequences"], "history_calls": res["calls"]}}
 
 
 def _run_random(case):
